@@ -154,6 +154,23 @@ def run(facts, rep, tier):
             rep.add(Finding("R18.3", "%s : table passed to %s is not the parameter" % (tcp.name, callee_name(t)),
                             "the table handed to the line reader is not the TCP function's own parameter (a fresh or replaced table would lose aircraft)",
                             span_loc(t.get("span"))))
+    # ... and nothing on the connection-handling path touches the table except the line reader itself
+    from ..effects import Effects
+    from ..region import _reach_names
+    eff = Effects(facts)
+    n_other = 0
+    for bb, t in tcp.calls():
+        tgt = callee_name(t)
+        if tgt in facts.bodies and any(x == "get_message" or x.endswith("::get_message") for x in _reach_names(facts, tgt)):
+            continue  # the line reader
+        e = eff.of_call(t)
+        st = [x for x in e if x[0] == "table" or (x[0] == "field" and x[1].split("::")[-1] in ("Plane", "Planes"))]
+        n_other += 1
+        rep.oblige(not st, ("no-table-effect", tgt))
+        if st:
+            rep.add(Finding("R18.3", "%s : %s changes the table outside the line reader" % (tcp.name, tgt),
+                            "the connection handling itself modifies the table (%s): aircraft heard before an outage are not kept as they were"
+                            % ", ".join(sorted(set("%s" % (x[1] if x[0] == "table" else x[2]) for x in st))), span_loc(t.get("span"))))
     news = []
     for n_, b in list(facts.bodies.items()) + list(facts.bin_bodies.items()):
         if b.kind == "promoted" or "::tests::" in n_:
